@@ -12,7 +12,9 @@ import (
 
 	dproto "github.com/cloudwego/dynamicgo/proto"
 	pg "github.com/cloudwego/dynamicgo/proto/generic"
+	"google.golang.org/protobuf/proto"
 	"google.golang.org/protobuf/reflect/protoreflect"
+	"google.golang.org/protobuf/types/dynamicpb"
 
 	"verifharness/gen"
 	"verifharness/h"
@@ -420,6 +422,18 @@ func runC07(c *h.Ctx) {
 		desc := svc.LookupMethodByName("M").Input()
 		m := PGenMsg(cs.R, pc.Root, PValCfg{NonFinite: true, MaxElems: 5, MaxDepth: 3}, 0)
 		b := PMarshal(m)
+		if cs.R.Intn(2) == 0 {
+			// field groups in the arbitrary order protobuf-go's default marshalling produces
+			sb := pShuffleWire(cs.R, b, pc.Root, 0)
+			chk := dynamicpb.NewMessage(pc.Root)
+			if err := proto.Unmarshal(sb, chk); err != nil || !proto.Equal(chk, m) {
+				panic("harness: shuffled encoding differs for the reference decoder")
+			}
+			if !bytes.Equal(sb, b) {
+				cs.Cover("wire_order_non_ascending")
+			}
+			b = sb
+		}
 		cs.Info("bytes", hexs(b))
 		cs.Info("message", fmt.Sprint(m))
 		opts := &pg.Options{MapStructById: cs.R.Bool(), UseNativeSkip: cs.R.Bool()}
